@@ -6,6 +6,8 @@ package main
 import (
 	"fmt"
 	"strings"
+
+	"golang.org/x/tools/go/ssa"
 )
 
 // lockEnvelope checks that the impure events of p start with Lock(mtx); defer Unlock(mtx) and end with
@@ -43,8 +45,35 @@ func fieldStore(e *Event, base *T, field string) bool {
 }
 
 // execStateMethods checks the selected methods of failsafe.(*execution) against their specification.
+// cancelTestHelper resolves the unlocked cancellation-test helper by its role: the single in-package
+// function the exported IsCanceledWithResult calls under the lock (robust to renaming the helper).
+func cancelTestHelper(c *Ctx) string {
+	fn := c.P.Func("failsafe.(*execution).IsCanceledWithResult")
+	if fn == nil {
+		return "isCanceledWithResult"
+	}
+	name := ""
+	for _, b := range fn.Blocks {
+		for _, in := range b.Instrs {
+			if cc, ok := in.(ssa.CallInstruction); ok {
+				if _, isDefer := in.(*ssa.Defer); isDefer {
+					continue
+				}
+				if cal := calleeOf(cc.Common()); cal != nil && c.P.InScope[cal] && cal.Pkg == fn.Pkg {
+					name = cal.Name()
+				}
+			}
+		}
+	}
+	if name == "" {
+		return "isCanceledWithResult"
+	}
+	return name
+}
+
 func execStateMethods(c *Ctx, which map[string]bool) {
 	c.Rule("execution-protocol")
+	helper := cancelTestHelper(c)
 	all := which == nil
 	want := func(m string) bool { return all || which[m] }
 	get := func(name string) (*Evaluator, []*Path, string, string, bool) {
@@ -53,7 +82,7 @@ func execStateMethods(c *Ctx, which map[string]bool) {
 			c.Unresolved("failsafe.(*execution)."+name, "not found")
 			return nil, nil, "", "", false
 		}
-		ev := NewEvaluator(c.P, EvalConfig{})
+		ev := NewEvaluator(c.P, EvalConfig{Opaque: map[string]bool{helper: true}})
 		ps := ev.Run(fn)
 		if ev.Err != nil || len(ps) == 0 {
 			c.Undecided(c.fn(fn), c.P.FuncPos(fn), fmt.Sprintf("evaluation failed: %v", ev.Err), "")
@@ -67,9 +96,9 @@ func execStateMethods(c *Ctx, which map[string]bool) {
 	}
 
 	if want("isCanceledWithResult") || want("RecordResult") || want("InitializeRetry") || want("Cancel") || want("IsCanceledWithResult") {
-		if ev, ps, name, pos, okk := get("isCanceledWithResult"); okk {
+		if ev, ps, name, pos, okk := get(helper); okk {
 			ts := ev.TS
-			e := recvOf(ev, "isCanceledWithResult")
+			e := recvOf(ev, helper)
 			ctx := ev.LoadField(ev.NewState(), e, "ctx")
 			box := ev.LoadField(ev.NewState(), e, "canceledResult")
 			ok := ctx != nil && box != nil
@@ -140,7 +169,7 @@ func execStateMethods(c *Ctx, which map[string]bool) {
 			ok := true
 			for _, p := range ps {
 				mid, env := lockEnvelope(p, "mtx")
-				if !env || len(mid) != 1 || !isCall(mid[0], "isCanceledWithResult") || p.Exit != ExitReturn || len(p.Rets) != 2 || p.Rets[0] != mid[0].Res[0] || p.Rets[1] != mid[0].Res[1] {
+				if !env || len(mid) != 1 || !isCall(mid[0], helper) || p.Exit != ExitReturn || len(p.Rets) != 2 || p.Rets[0] != mid[0].Res[0] || p.Rets[1] != mid[0].Res[1] {
 					ok = false
 					c.Fail(name, pos, "must be: Lock; defer Unlock; return isCanceledWithResult()", pathTrace(ev, p))
 				}
@@ -165,7 +194,7 @@ func execStateMethods(c *Ctx, which map[string]bool) {
 					c.Fail(name, pos, msg, pathTrace(ev, p))
 				}
 				mid, env := lockEnvelope(p, "mtx")
-				if !env || len(mid) == 0 || !isCall(mid[0], "isCanceledWithResult") || p.Exit != ExitReturn {
+				if !env || len(mid) == 0 || !isCall(mid[0], helper) || p.Exit != ExitReturn {
 					bad("must lock the execution (deferred unlock) and test cancellation first")
 					continue
 				}
@@ -233,7 +262,7 @@ func execStateMethods(c *Ctx, which map[string]bool) {
 					c.Fail(name, pos, msg, pathTrace(ev, p))
 				}
 				mid, env := lockEnvelope(p, "mtx")
-				if !env || len(mid) == 0 || !isCall(mid[0], "isCanceledWithResult") || p.Exit != ExitReturn {
+				if !env || len(mid) == 0 || !isCall(mid[0], helper) || p.Exit != ExitReturn {
 					bad("must lock the execution (deferred unlock) and test cancellation before anything else: the test and the reset of the stored cancel result must be one critical section")
 					continue
 				}
@@ -321,7 +350,7 @@ func execStateMethods(c *Ctx, which map[string]bool) {
 					c.Fail(name, pos, msg, pathTrace(ev, p))
 				}
 				mid, env := lockEnvelope(p, "mtx")
-				if !env || len(mid) == 0 || !isCall(mid[0], "isCanceledWithResult") || p.Exit != ExitReturn {
+				if !env || len(mid) == 0 || !isCall(mid[0], helper) || p.Exit != ExitReturn {
 					bad("must lock the execution (deferred unlock) and test cancellation first")
 					continue
 				}
